@@ -349,6 +349,48 @@ def rule_partition(ctx, rep, rid="C09.partition"):
                 else:
                     rep.unk(rid, inst_, "value stored to nr_cpus_mask not recognised: %s" % ir.expr_str(v))
         pat.require(nst >= 1, "no writer of nr_cpus_mask found")
+    # the creation and the join loop are `for (t = 0; t < n; t++)`: a loop that starts at 1 leaves partition 0 to nobody (and joins a thread
+    # id that was never written), `<=` hands out a partition beyond the level
+    nloops = 0
+    for ph, inits, steps, stays in pat.counted_loops(f):
+        nl = pat.natural_loop(f, ph)
+        if not any(i.op == "call" and i.callee in ("pthread_create", "pthread_join") and i.blk.id in nl for i in f.all_insts()):
+            continue
+        nloops += 1
+        which = "create" if any(i.op == "call" and i.callee == "pthread_create" and i.blk.id in nl for i in f.all_insts()) else "join"
+        where = [stays[0][1].where()]
+        rep.check(inits == [0], rid, "helper.%s-loop.from-0" % which, "the %s loop starts at thread 0" % which, "the %s loop starts at %s: partition 0 is %s" % (which, inits, "never processed" if which == "create" else "never joined (the level is published while a worker still fills it)"), where)
+        okstep = bool(steps) and all(e[0] == "bin" and e[1] == "add" and e[3] == ("c", 1) and e[2] == ("phi", ph.id) for e in steps)
+        if okstep:
+            rep.ok(rid, "helper.%s-loop.step-1" % which, "the %s loop advances by one" % which)
+        elif steps and all(e[0] == "bin" and e[1] in ("add", "sub") and e[3][0] == "c" and e[2] == ("phi", ph.id) for e in steps):
+            rep.bad(rid, "helper.%s-loop.step-1" % which, "the %s loop advances by %s" % (which, [ir.expr_str(e) for e in steps]), where)
+        else:
+            rep.unk(rid, "helper.%s-loop.step-1" % which, "step of the %s loop not recognised: %s" % (which, [ir.expr_str(e) for e in steps]))
+        for a, t in stays:
+            if a[1] == ("phi", ph.id):
+                rep.check(a[0] in ("ult", "ne", "slt"), rid, "helper.%s-loop.bound" % which, "the %s loop continues while t < n" % which,
+                          "the %s loop continues while t %s n: %s" % (which, a[0], "one partition too many is handed out (beyond the level)" if a[0] in ("ule", "sle") else "the threads are not all %s" % ("created" if which == "create" else "joined")), [t.where()])
+    pat.require(nloops >= 2, "partition_resize_helper: create / join loops not recognised (%d)" % nloops)
+    # every field of the work item the worker thread reads is written before the thread is created (the array comes from calloc: a missing
+    # store is a NULL table / NULL function / level 0 in the worker)
+    from . import lfht as _l
+    wt = ctx.mod("cds", "perfn").fn("partition_resize_thread")
+    pcs = [i for i in f.all_insts() if i.op == "call" and i.callee == "pthread_create"]
+    if wt is not None and pcs:
+        rep.touch(wt)
+        rd = sorted(set(pat.last_field(l.d["ap"]) for l in wt.all_insts() if l.op == "load" and l.d.get("ap") and (pat.last_field(l.d["ap"]) or "").startswith("partition_resize_work.")))
+        pat.require(len(rd) >= 4, "partition_resize_thread reads only %s" % rd)
+        for fld in rd:
+            sts = [s_ for s_ in f.all_insts() if s_.op == "store" and s_.d.get("ap") and pat.last_field(s_.d["ap"]) == fld]
+            if not sts:
+                rep.bad(rid, "helper.work-init." + fld.split(".")[1], "the worker thread reads work->%s, which partition_resize_helper never writes (zero from calloc)" % fld.split(".")[1], [pcs[0].where()])
+            else:
+                rep.must_pass(rid, "helper.work-init." + fld.split(".")[1], f, [f.entry()], pcs, lambda i, sts=sts: i in sts, include_start=True, what="work->%s is written before the worker thread is created" % fld.split(".")[1])
+        vals = {"ht": ("arg", 0), "i": ("arg", 1), "fct": ("arg", 3)}
+        for k_, want in vals.items():
+            for s_ in [x for x in f.all_insts() if x.op == "store" and x.d.get("ap") and pat.last_field(x.d["ap"]) == "partition_resize_work." + k_]:
+                rep.check(ir.expr(f, s_.args[0], 3) == want, rid, "helper.work-value." + k_, "work->%s is the helper's own %s" % (k_, k_), "work->%s is set to %s" % (k_, ir.expr_str(ir.expr(f, s_.args[0], 3))), [s_.where()])
     # ... the thread count is min(nr_cpus_mask + 1, len >> k) or 1 (all powers of two), and partition_len = len >> order(thread count)
     co = [c_ for c_ in f.calls() if c_.callee and c_.callee.endswith("get_count_order_ulong")]
     lnst = [s_ for s_ in pat.stores(f, "partition_resize_work.len")]
